@@ -279,6 +279,60 @@ fn drop_probe() -> Option<Failure> {
     }
 }
 
+/// C17 "after the last handle is dropped, background threads have stopped ... and opening succeeds", with
+/// background work still *running* at drop time: a compaction whose filter (user code on a worker thread)
+/// takes 2.5 s.  When the drop returns no `fjall:worker` thread may be left and the directory must open.
+fn busy_worker_drop_probe() -> Option<Failure> {
+    use fjall::compaction::filter::{CompactionFilter, Context, Factory, ItemAccessor, Verdict};
+    use std::sync::atomic::{AtomicBool, Ordering};
+    use std::sync::Arc;
+    static RUNNING: AtomicBool = AtomicBool::new(false);
+    static FINISHED: AtomicBool = AtomicBool::new(false);
+    struct Slow(bool);
+    impl CompactionFilter for Slow {
+        fn filter_item(&mut self, _item: ItemAccessor<'_>, _ctx: &Context) -> fjall::compaction::filter::CompactionFilterResult {
+            if !self.0 { self.0 = true; RUNNING.store(true, Ordering::Release); std::thread::sleep(std::time::Duration::from_millis(2500)); FINISHED.store(true, Ordering::Release); }
+            Ok(Verdict::Keep)
+        }
+    }
+    struct SlowFactory;
+    impl Factory for SlowFactory {
+        fn name(&self) -> &str { "slow" }
+        fn make_filter(&self, _ctx: &Context) -> Box<dyn CompactionFilter> { Box::new(Slow(false)) }
+    }
+    let scratch = Scratch::new("busydrop");
+    let dir = scratch.join("db");
+    let open = |d: &std::path::Path| fjall::Database::builder(d).worker_threads(1).with_compaction_filter_factories(Arc::new(|_| Some(Arc::new(SlowFactory) as Arc<dyn Factory>))).open();
+    let db = open(&dir).ok()?;
+    let ks = db.keyspace("a", fjall::KeyspaceCreateOptions::default).ok()?;
+    for round in 0..6 { for i in 0..20 { ks.insert(format!("k{i:03}"), format!("v{round}")).ok()?; } ks.rotate_memtable_and_wait().ok()?; if RUNNING.load(Ordering::Acquire) { break; } }
+    let t0 = std::time::Instant::now();
+    while !RUNNING.load(Ordering::Acquire) && t0.elapsed() < std::time::Duration::from_secs(20) { std::thread::sleep(std::time::Duration::from_millis(5)); }
+    if !RUNNING.load(Ordering::Acquire) { return None; } // no compaction got going: nothing to probe
+    let t1 = std::time::Instant::now();
+    drop(ks);
+    drop(db);
+    let took = t1.elapsed();
+    let still_running = !FINISHED.load(Ordering::Acquire);
+    let reopen = open(&dir);
+    // a worker's OS thread may exist for an instant after it reported its exit (it is past all fjall code then):
+    // give the kernel 300 ms before counting
+    let count_workers = || std::fs::read_dir("/proc/self/task").map(|d| d.filter_map(|e| e.ok()).filter(|e| std::fs::read_to_string(e.path().join("comm")).map(|c| c.trim().starts_with("fjall:worker")).unwrap_or(false)).count()).unwrap_or(0);
+    let expect_after_reopen = if reopen.is_ok() { 1 } else { 0 };
+    let t2 = std::time::Instant::now();
+    while count_workers() > expect_after_reopen && t2.elapsed() < std::time::Duration::from_millis(300) { std::thread::sleep(std::time::Duration::from_millis(10)); }
+    let workers_left = count_workers().saturating_sub(expect_after_reopen);
+    let reopen_ok = reopen.is_ok();
+    let reopen_s = match &reopen { Ok(_) => "Ok".to_string(), Err(e) => format!("{e:?}") };
+    drop(reopen);
+    if still_running || workers_left > 0 || !reopen_ok {
+        // let the sleeping worker finish before the scratch directory goes away
+        while !FINISHED.load(Ordering::Acquire) { std::thread::sleep(std::time::Duration::from_millis(20)); }
+        return Some(Failure { kind: "impl-vs-oracle", detail: format!("drop with a compaction still running: dropping the last handles returned after {took:?} while background work was still running = {still_running}, fjall:worker threads left = {workers_left}, immediate reopen = {reopen_s}") });
+    }
+    None
+}
+
 fn main() {
     let args: Vec<String> = std::env::args().collect();
     let mut replay = None;
@@ -301,6 +355,7 @@ fn main() {
     let mut hist = std::collections::BTreeMap::new();
     let mut cases = 0;
     if replay.is_none() { if let Some(f) = drop_probe() { all.push((0, f)); } *hist.entry("drop-probe".to_string()).or_insert(0) += 1; }
+    if replay.is_none() { if let Some(f) = busy_worker_drop_probe() { all.push((0, f)); } *hist.entry("busy-worker-drop-probe".to_string()).or_insert(0) += 1; }
     for cs in seeds {
         // even seeds: marker contents; odd seeds: lock orders (a replayed seed keeps its parity)
         let res = std::panic::catch_unwind(std::panic::AssertUnwindSafe(|| {
